@@ -32,6 +32,15 @@ class PathAbort(BaseException):
 # scalars
 # ------------------------------------------------------------------------------------------------
 
+_rtype = type
+
+
+def isi(x, cls):
+    """isinstance on the *real* type only: proxies spoof __class__ for the running code, the engine must not be
+    fooled (and must not trigger the branching that a spoofed __class__ lookup may perform)."""
+    return issubclass(_rtype(x), cls)
+
+
 def is_sym(x):
     return type(x) in (SInt, SBool, SId)
 
@@ -417,6 +426,7 @@ class Ctx:
         self.stores = []  # recorded heap stores (frame checking)
         self.bases = {}  # ivar id -> Base
         self._pw_seen = set()
+        self._keepalive = []
         self.families = {}
         self.contracts = {}
         self.repo = None
@@ -442,6 +452,7 @@ class Ctx:
         if key in self._pw_seen:
             return
         self._pw_seen.add(key)
+        self._keepalive.append(term)
         self.pointwise.append((ivar, term))
         self._cache.clear()
 
@@ -456,6 +467,7 @@ class Ctx:
             key = ("g", term.get_id())
             if key not in self._pw_seen:
                 self._pw_seen.add(key)
+                self._keepalive.append(term)
                 self.assumptions.append(term)
                 self._cache.clear()
         elif len(hit) == 1:
@@ -470,20 +482,38 @@ class Ctx:
             base = base + self.theory(self, base)
         return base
 
-    def check(self, formulas, timeout_ms=None):
+    def check(self, formulas, timeout_ms=None, want_model=False):
         s = z3.Solver()
         s.set("timeout", timeout_ms or self.budget_ms)
         for f in formulas:
             s.add(f)
         self.solver_calls += 1
-        return s.check()
+        r = s.check()
+        if want_model:
+            return r, (s.model() if r == z3.sat else None)
+        return r
 
     def entails(self, term, extra=()):
-        key = ("e", tuple(t.get_id() for t in self.pc()), term.get_id(), tuple(t.get_id() for t in extra))
+        pcl = self.pc()
+        key = ("e", tuple(t.get_id() for t in pcl), term.get_id(), tuple(t.get_id() for t in extra))
         if key in self._cache:
             return self._cache[key]
-        r = self.check(self.closure(list(extra) + [z3.Not(term)]))
+        self._keepalive.append((pcl, term, extra))  # AST ids are only unique among live terms
+        # a model of the current path condition that falsifies `term` settles non-entailment without a query
+        pck = ("m", key[1], key[3])
+        m = self._cache.get(pck)
+        if m is not None:
+            try:
+                v = m.eval(term, model_completion=False)
+                if z3.is_false(v):
+                    self._cache[key] = False
+                    return False
+            except z3.Z3Exception:
+                pass
+        r, model = self.check(self.closure(list(extra) + [z3.Not(term)]), want_model=True)
         ok = (r == z3.unsat)
+        if model is not None and pck not in self._cache:
+            self._cache[pck] = model
         self._cache[key] = ok
         return ok
 
@@ -503,6 +533,12 @@ class Ctx:
         if self.entails(z3.Not(term)):
             return False
         fr = self.frames[-1]
+        if len(self.frames) == 1 and self.bases:
+            from .folds import _mentions
+            for b in self.bases.values():
+                if _mentions(term, b.ivar):
+                    raise Unsupported(f"engine: a condition about the generic element of {b.name} reached the global "
+                                      f"path ({term})")
         if fr.pos < len(fr.decisions):
             d = fr.decisions[fr.pos]
         else:
